@@ -1274,6 +1274,8 @@ class Range(NumericTuple):
 
     def _validate(self, val):
         super()._validate(val)
+        # a range always has two ends (Tuple derives the length from a default)
+        self._validate_length(val, 2)
         self._validate_bounds(val, self.bounds, self.inclusive_bounds, 'bound')
         self._validate_bounds(val, self.softbounds, self.inclusive_bounds, 'softbound')
         self._validate_step(val, self.step)
